@@ -148,8 +148,8 @@ theorem kept_emitEvents (s : St) (f : AFrame) : Kept s (emitEvents s f) ∧ (emi
     have := ih (emit s (.event n))
     exact ⟨kept_trans (a := s) (b := emit s (.event n)) (kept_refl s) this.1, this.2⟩
 
-theorem write_cases (s : St) (b : Bytes) :
-    (s.werr = none ∧ write s b = (emit s (.wrote b), none)) ∨ (∃ k, s.werr = some k ∧ write s b = (s, some k)) := by
+theorem write_cases (s : St) (b : Bytes) (w : WKind) :
+    (s.werr = none ∧ write s b w = (emit s (.wrote b w), none)) ∨ (∃ k, s.werr = some k ∧ write s b w = (s, some k)) := by
   unfold write
   cases h : s.werr with
   | none => left; exact ⟨rfl, rfl⟩
@@ -180,7 +180,7 @@ theorem afterReply_μ (s : St) (d : Nat) :
     · simp only [hs, if_false]
       by_cases hd : s.now ≥ d
       · simp only [hd, if_true]
-        rcases write_cases s IDLE with ⟨_, h⟩ | ⟨k, _, h⟩ <;> rw [h] <;> simp only
+        rcases write_cases s IDLE _ with ⟨_, h⟩ | ⟨k, _, h⟩ <;> rw [h] <;> simp only
         · refine ⟨⟨rfl, rfl, rfl, rfl, rfl, rfl, rfl⟩, ?_⟩
           simp [μ, phase, bytesLeft, emit, hq]
         · exact ⟨kept_exit_emit _ (kept_refl s), by rw [μ_exit_emit _ (kept_refl s)]; omega⟩
@@ -190,7 +190,7 @@ theorem afterReply_μ (s : St) (d : Nat) :
   | cons r q =>
     simp only
     have hk : Kept s { s with queue := q } := ⟨rfl, rfl, rfl, rfl, rfl, rfl, rfl⟩
-    rcases write_cases { s with queue := q } r.bytes with ⟨_, h⟩ | ⟨k, _, h⟩ <;> rw [h] <;> simp only
+    rcases write_cases { s with queue := q } r.bytes _ with ⟨_, h⟩ | ⟨k, _, h⟩ <;> rw [h] <;> simp only
     · refine ⟨⟨rfl, rfl, rfl, rfl, rfl, rfl, rfl⟩, ?_⟩
       simp [μ, phase, bytesLeft, emit] <;> omega
     · exact ⟨kept_exit_emit _ hk, by rw [μ_exit_emit _ hk]; omega⟩
@@ -204,7 +204,7 @@ theorem startCancel_μ (s : St) :
   | cons r q =>
     simp only
     have hk : Kept s { s with queue := q } := ⟨rfl, rfl, rfl, rfl, rfl, rfl, rfl⟩
-    rcases write_cases { s with queue := q } NOIDLE with ⟨_, h⟩ | ⟨k, _, h⟩ <;> rw [h] <;> simp only
+    rcases write_cases { s with queue := q } NOIDLE _ with ⟨_, h⟩ | ⟨k, _, h⟩ <;> rw [h] <;> simp only
     · refine ⟨⟨rfl, rfl, rfl, rfl, rfl, rfl, rfl⟩, ?_⟩
       simp [μ, phase, bytesLeft, emit] <;> omega
     · exact ⟨kept_exit_emit _ hk, by rw [μ_exit_emit _ hk]; omega⟩
@@ -220,7 +220,7 @@ theorem idleResponse_μ (s : St) (r : Response) :
     | ok f =>
       simp only
       obtain ⟨hk, hqq⟩ := kept_emitEvents s f
-      rcases write_cases (emitEvents s f) IDLE with ⟨_, h⟩ | ⟨k, _, h⟩ <;> rw [h] <;> simp only
+      rcases write_cases (emitEvents s f) IDLE _ with ⟨_, h⟩ | ⟨k, _, h⟩ <;> rw [h] <;> simp only
       · refine ⟨kept_trans hk ⟨rfl, rfl, rfl, rfl, rfl, rfl, rfl⟩, ?_⟩
         have hb := kept_bytes hk
         simp only [μ, phase, bytesLeft, emit] at hb ⊢
@@ -264,7 +264,7 @@ theorem step_decreases (s s' : St) (rf : Bool) (hc : s.pc ≠ .connecting) (hd :
   | spawned =>
     rw [hpc] at h
     have hph : phase s = 2 := by simp [phase, hpc]
-    rcases write_cases s IDLE with ⟨_, hw⟩ | ⟨k, _, hw⟩ <;> rw [hw] at h <;>
+    rcases write_cases s IDLE _ with ⟨_, hw⟩ | ⟨k, _, hw⟩ <;> rw [hw] at h <;>
       simp only [Option.some.injEq] at h <;> subst h
     · refine ⟨?_, hd⟩
       have key : ∀ x : St, bytesLeft x = bytesLeft s → x.queue = s.queue → phase x = 1 → μ x < μ s := by
@@ -422,7 +422,7 @@ theorem step_decreases (s s' : St) (rf : Bool) (hc : s.pc ≠ .connecting) (hd :
           | ok f =>
             simp only at h
             obtain ⟨hk, hqq⟩ := kept_emitEvents s1 f
-            rcases write_cases (emitEvents s1 f) r.bytes with ⟨_, hw⟩ | ⟨k, _, hw⟩ <;> rw [hw] at h <;>
+            rcases write_cases (emitEvents s1 f) r.bytes _ with ⟨_, hw⟩ | ⟨k, _, hw⟩ <;> rw [hw] at h <;>
               simp only [Option.some.injEq] at h <;> subst h
             · refine ⟨?_, kept_dead (kept_trans hk ⟨rfl, rfl, rfl, rfl, rfl, rfl, rfl⟩) hd1⟩
               have hbb := kept_bytes hk
@@ -573,7 +573,6 @@ def drain (sched : St → Bool) : Nat → St → St
   | 0, s => s
   | n + 1, s => drain sched n (move (sched s) s)
 
-def Terminal (s : St) : Prop := s.pc = .exited ∨ s.pc = .failed
 
 theorem move_spec (rf : Bool) (s : St) (hc : s.pc ≠ .connecting) (hd : Dead s) (hnt : ¬ Terminal s) :
     μ (move rf s) < μ s ∧ Dead (move rf s) ∧ (move rf s).pc ≠ .connecting := by
@@ -628,13 +627,13 @@ theorem post_afterReply (s : St) (d : Nat) : Post (afterReply s d) := by
     · simp only [hs, if_false]
       by_cases hd : s.now ≥ d
       · simp only [hd, if_true]
-        rcases write_cases s IDLE with ⟨_, h⟩ | ⟨k, _, h⟩ <;> rw [h] <;> simp only
+        rcases write_cases s IDLE _ with ⟨_, h⟩ | ⟨k, _, h⟩ <;> rw [h] <;> simp only
         · exact ⟨trivial, by intro h; cases h⟩
         · exact post_exitLoop _
       · simp only [hd, if_false]; exact ⟨trivial, by intro h; cases h⟩
   | cons r q =>
     simp only
-    rcases write_cases { s with queue := q } r.bytes with ⟨_, h⟩ | ⟨k, _, h⟩ <;> rw [h] <;> simp only
+    rcases write_cases { s with queue := q } r.bytes _ with ⟨_, h⟩ | ⟨k, _, h⟩ <;> rw [h] <;> simp only
     · exact ⟨trivial, by intro h; cases h⟩
     · exact post_exitLoop _
 
@@ -644,7 +643,7 @@ theorem post_startCancel (s : St) : Post (startCancel s) := by
   | nil => exact post_exitLoop s
   | cons r q =>
     simp only
-    rcases write_cases { s with queue := q } NOIDLE with ⟨_, h⟩ | ⟨k, _, h⟩ <;> rw [h] <;> simp only
+    rcases write_cases { s with queue := q } NOIDLE _ with ⟨_, h⟩ | ⟨k, _, h⟩ <;> rw [h] <;> simp only
     · exact ⟨trivial, by intro h; cases h⟩
     · exact post_exitLoop _
 
@@ -657,7 +656,7 @@ theorem post_idleResponse (s : St) (r : Response) : Post (idleResponse s r) := b
     | error e => exact post_exitLoop _
     | ok f =>
       simp only
-      rcases write_cases (emitEvents s f) IDLE with ⟨_, h⟩ | ⟨k, _, h⟩ <;> rw [h] <;> simp only
+      rcases write_cases (emitEvents s f) IDLE _ with ⟨_, h⟩ | ⟨k, _, h⟩ <;> rw [h] <;> simp only
       · exact ⟨trivial, by intro h; cases h⟩
       · exact post_exitLoop _
 
